@@ -847,4 +847,297 @@ def evalLikeBody : List String :=
    "}",
    "returnvalue.NewTernary(t),nil"]
 
+/-! ## LATERAL (load_view.go loadView / LoadView) and the sub-query functions of eval.go
+
+  reviewed 2026-09-24 on a4e4825 against Model/Lateral.lean and the sub-query forms of Model/Rel.lean:
+  * `case parser.Join`: the left side is loaded first; the LATERAL branch is taken when the right-hand side is a
+    parser.Table with LATERAL; RIGHT / FULL are refused before any record is looked at;
+  * the callback (once per left record, through EvaluateSequentially = worker chunks): Select of the sub-query in the
+    record's scope, alias, a one-record view of the left record, joinViews with the written join, `hfields` from
+    record 0 only, the records into the slot of the record; afterwards the slots are appended in record order;
+  * LoadView folds a comma-separated FROM list to the left into CROSS joins (no direction);
+  * Evaluate sends In / Any / All / Exists / Subquery to evalIn / evalAny / evalAll / evalExists / evalSubqueryForValue;
+    evalIn is `= ANY` resp. `<> ALL`; evalExists: FALSE iff no record; evalSubqueryForValue: too many fields, no field,
+    too many records, NULL for no record, else the first cell; evalSubqueryForArray: the same field tests, the first
+    cell of every record. -/
+
+/-- `loadView`, `case parser.Join`: when the LATERAL branch is taken -/
+def lateralGuard : List String :=
+  ["t,ok:=join.JoinTable.(parser.Table)",
+   "ok&&!t.Lateral.IsEmpty()"]
+
+/-- `loadView`, `case parser.Join` as a whole (left side first, then LATERAL or the plain join) -/
+def joinCaseBody : List String :=
+  ["join:=table.Object.(parser.Join)",
+   "view,err=loadView(ctx,scope,join.Table,forUpdate,useInternalId)",
+   "if(err!=nil){",
+   "returnnil,err",
+   "}",
+   "if(t,ok:=join.JoinTable.(parser.Table);ok&&!t.Lateral.IsEmpty()){",
+   "switch(join.Direction.Token){",
+   "case(parser.RIGHT,parser.FULL):",
+   "returnnil,NewIncorrectLateralUsageError(t)",
+   "}",
+   "joinTableName,err:=ParseTableName(ctx,scope,t)",
+   "if(err!=nil){",
+   "returnnil,err",
+   "}",
+   "subquery:=t.Object.(parser.Subquery)",
+   "varhfieldsHeader",
+   "resultSetList:=make([]RecordSet,view.RecordLen())",
+   "if(err:=EvaluateSequentially(ctx,scope,view,func(seqScope*ReferenceScope,rIdxint)error{appliedView,err:=Select(ctx,seqScope,subquery.Query)iferr!=nil{returnerr}if0<len(joinTableName.Literal){iferr=appliedView.Header.Update(joinTableName.Literal,nil);err!=nil{returnerr}}calcView:=NewView()calcView.Header=view.Header.Copy()calcView.RecordSet=RecordSet{view.RecordSet[rIdx].Copy()}iferr=joinViews(ctx,scope,calcView,appliedView,join);err!=nil{returnerr}ifrIdx==0{hfields=calcView.Header}resultSetList[rIdx]=calcView.RecordSetreturnnil});err!=nil){",
+   "returnnil,err",
+   "}",
+   "resultSet:=make(RecordSet,0,view.RecordLen())",
+   "for(i:range:resultSetList){",
+   "resultSet=append(resultSet,resultSetList[i]...)",
+   "}",
+   "view.Header=hfields",
+   "view.RecordSet=resultSet",
+   "view.FileInfo=nil",
+   "}else{",
+   "joinView,err:=loadView(ctx,scope,join.JoinTable,forUpdate,useInternalId)",
+   "if(err!=nil){",
+   "returnnil,err",
+   "}",
+   "if(err=joinViews(ctx,scope,view,joinView,join);err!=nil){",
+   "returnnil,err",
+   "}",
+   "}"]
+
+/-- `loadView`, LATERAL: the statements before the records are evaluated -/
+def lateralPrelude : List String :=
+  ["switch(join.Direction.Token){",
+   "case(parser.RIGHT,parser.FULL):",
+   "returnnil,NewIncorrectLateralUsageError(t)",
+   "}",
+   "joinTableName,err:=ParseTableName(ctx,scope,t)",
+   "if(err!=nil){",
+   "returnnil,err",
+   "}",
+   "subquery:=t.Object.(parser.Subquery)",
+   "varhfieldsHeader",
+   "resultSetList:=make([]RecordSet,view.RecordLen())"]
+
+/-- `loadView`, LATERAL: the callback run once per left record -/
+def lateralCallback : List String :=
+  ["appliedView,err:=Select(ctx,seqScope,subquery.Query)",
+   "if(err!=nil){",
+   "returnerr",
+   "}",
+   "if(0<len(joinTableName.Literal)){",
+   "if(err=appliedView.Header.Update(joinTableName.Literal,nil);err!=nil){",
+   "returnerr",
+   "}",
+   "}",
+   "calcView:=NewView()",
+   "calcView.Header=view.Header.Copy()",
+   "calcView.RecordSet=RecordSet{view.RecordSet[rIdx].Copy()}",
+   "if(err=joinViews(ctx,scope,calcView,appliedView,join);err!=nil){",
+   "returnerr",
+   "}",
+   "if(rIdx==0){",
+   "hfields=calcView.Header",
+   "}",
+   "resultSetList[rIdx]=calcView.RecordSet",
+   "returnnil"]
+
+/-- `loadView`, LATERAL: what is done with the per-record results -/
+def lateralAssembly : List String :=
+  ["resultSet:=make(RecordSet,0,view.RecordLen())",
+   "for(i:range:resultSetList){",
+   "resultSet=append(resultSet,resultSetList[i]...)",
+   "}",
+   "view.Header=hfields",
+   "view.RecordSet=resultSet",
+   "view.FileInfo=nil"]
+
+/-- `loadView`, LATERAL: the per-record join and where its records go -/
+def lateralJoinAndSlot : List String :=
+  ["iferr=joinViews(ctx,scope,calcView,appliedView,join);err!=nil{returnerr}",
+   "resultSetList[rIdx]=calcView.RecordSet"]
+
+/-- `LoadView`: how a comma-separated FROM list becomes joins -/
+def fromListLoop : List String :=
+  ["for(i:=1;i<len(tables);i++){",
+   "table=parser.Table{Object:parser.Join{Table:table,JoinTable:tables[i],JoinType:parser.Token{Token:parser.CROSS},},}",
+   "}"]
+
+/-- `Evaluate`: node type → the function that evaluates it, in source order -/
+def evalDispatch : List String :=
+  ["parser.PrimitiveType→(inline)",
+   "parser.FieldReference,parser.ColumnNumber→evalFieldReference",
+   "parser.Parentheses→Evaluate",
+   "parser.Arithmetic→evalArithmetic",
+   "parser.UnaryArithmetic→evalUnaryArithmetic",
+   "parser.Concat→evalConcat",
+   "parser.Comparison→evalComparison",
+   "parser.Is→evalIs",
+   "parser.Between→evalBetween",
+   "parser.Like→evalLike",
+   "parser.In→evalIn",
+   "parser.Any→evalAny",
+   "parser.All→evalAll",
+   "parser.Exists→evalExists",
+   "parser.Subquery→evalSubqueryForValue",
+   "parser.Function→evalFunction",
+   "parser.AggregateFunction→evalAggregateFunction",
+   "parser.ListFunction→evalListFunction",
+   "parser.AnalyticFunction→evalAnalyticFunction",
+   "parser.CaseExpr→evalCaseExpr",
+   "parser.Logic→evalLogic",
+   "parser.UnaryLogic→evalUnaryLogic",
+   "parser.Variable→scope.GetVariable",
+   "parser.EnvironmentVariable→value.NewString",
+   "parser.RuntimeInformation→GetRuntimeInformation",
+   "parser.Constant→(inline)",
+   "parser.Flag→(inline)",
+   "parser.VariableSubstitution→scope.SubstituteVariable",
+   "parser.CursorStatus→evalCursorStatus",
+   "parser.CursorAttrebute→evalCursorAttribute",
+   "parser.Placeholder→evalPlaceholder",
+   "default→NewInvalidValueExpressionError"]
+
+/-- `evalExists` as a whole -/
+def existsOutcomeBody : List String :=
+  ["view,err:=Select(ctx,scope,expr.Query.Query)",
+   "if(err!=nil){",
+   "returnnil,err",
+   "}",
+   "if(view.RecordLen()<1){",
+   "returnvalue.NewTernary(ternary.FALSE),nil",
+   "}",
+   "returnvalue.NewTernary(ternary.TRUE),nil"]
+
+/-- `evalSubqueryForValue` as a whole -/
+def scalarOutcomeBody : List String :=
+  ["view,err:=Select(ctx,scope,expr.Query)",
+   "if(err!=nil){",
+   "returnnil,err",
+   "}",
+   "if(1<view.FieldLen()){",
+   "returnnil,NewSubqueryTooManyFieldsError(expr)",
+   "}",
+   "if(view.FieldLen()<1){",
+   "returnnil,NewSubqueryNoFieldsError(expr)",
+   "}",
+   "if(1<view.RecordLen()){",
+   "returnnil,NewSubqueryTooManyRecordsError(expr)",
+   "}",
+   "if(view.RecordLen()<1){",
+   "returnvalue.NewNull(),nil",
+   "}",
+   "returnview.RecordSet[0][0][0],nil"]
+
+/-- `evalSubqueryForArray` as a whole -/
+def arrayOutcomeBody : List String :=
+  ["view,err:=Select(ctx,scope,expr.Query)",
+   "if(err!=nil){",
+   "returnnil,err",
+   "}",
+   "if(1<view.FieldLen()){",
+   "returnnil,NewSubqueryTooManyFieldsError(expr)",
+   "}",
+   "if(view.FieldLen()<1){",
+   "returnnil,NewSubqueryNoFieldsError(expr)",
+   "}",
+   "if(view.RecordLen()<1){",
+   "returnnil,nil",
+   "}",
+   "list:=make([]value.RowValue,view.RecordLen())",
+   "for(i:range:view.RecordSet){",
+   "list[i]=value.RowValue{view.RecordSet[i][0][0]}",
+   "}",
+   "returnlist,nil"]
+
+/-- `evalIn` as a whole -/
+def evalInBody : List String :=
+  ["val,list,err:=valuesForRowValueListComparison(ctx,scope,expr.LHS,expr.Values)",
+   "if(err!=nil){",
+   "returnnil,err",
+   "}",
+   "vartternary.Value",
+   "if(expr.IsNegated()){",
+   "t,err=All(val,list,\"<>\",scope.Tx.Flags.DatetimeFormat,scope.Tx.Flags.GetTimeLocation())",
+   "}else{",
+   "t,err=Any(val,list,\"=\",scope.Tx.Flags.DatetimeFormat,scope.Tx.Flags.GetTimeLocation())",
+   "}",
+   "if(err!=nil){",
+   "if(subquery,ok:=expr.Values.(parser.Subquery);ok){",
+   "returnnil,NewSelectFieldLengthInComparisonError(subquery,len(val))",
+   "}elseif(jsonQuery,ok:=expr.Values.(parser.JsonQuery);ok){",
+   "returnnil,NewRowValueLengthInComparisonError(jsonQuery,len(val))",
+   "}",
+   "rvlist,_:=expr.Values.(parser.RowValueList)",
+   "rverr,_:=err.(*RowValueLengthInListError)",
+   "returnnil,NewRowValueLengthInComparisonError(rvlist.RowValues[rverr.Index],len(val))",
+   "}",
+   "returnvalue.NewTernary(t),nil"]
+
+/-- `evalAny` as a whole -/
+def evalAnyBody : List String :=
+  ["val,list,err:=valuesForRowValueListComparison(ctx,scope,expr.LHS,expr.Values)",
+   "if(err!=nil){",
+   "returnnil,err",
+   "}",
+   "t,err:=Any(val,list,expr.Operator.Literal,scope.Tx.Flags.DatetimeFormat,scope.Tx.Flags.GetTimeLocation())",
+   "if(err!=nil){",
+   "if(subquery,ok:=expr.Values.(parser.Subquery);ok){",
+   "returnnil,NewSelectFieldLengthInComparisonError(subquery,len(val))",
+   "}elseif(jsonQuery,ok:=expr.Values.(parser.JsonQuery);ok){",
+   "returnnil,NewRowValueLengthInComparisonError(jsonQuery,len(val))",
+   "}",
+   "rvlist,_:=expr.Values.(parser.RowValueList)",
+   "rverr,_:=err.(*RowValueLengthInListError)",
+   "returnnil,NewRowValueLengthInComparisonError(rvlist.RowValues[rverr.Index],len(val))",
+   "}",
+   "returnvalue.NewTernary(t),nil"]
+
+/-- `evalAll` as a whole -/
+def evalAllBody : List String :=
+  ["val,list,err:=valuesForRowValueListComparison(ctx,scope,expr.LHS,expr.Values)",
+   "if(err!=nil){",
+   "returnnil,err",
+   "}",
+   "t,err:=All(val,list,expr.Operator.Literal,scope.Tx.Flags.DatetimeFormat,scope.Tx.Flags.GetTimeLocation())",
+   "if(err!=nil){",
+   "if(subquery,ok:=expr.Values.(parser.Subquery);ok){",
+   "returnnil,NewSelectFieldLengthInComparisonError(subquery,len(val))",
+   "}elseif(jsonQuery,ok:=expr.Values.(parser.JsonQuery);ok){",
+   "returnnil,NewRowValueLengthInComparisonError(jsonQuery,len(val))",
+   "}",
+   "rvlist,_:=expr.Values.(parser.RowValueList)",
+   "rverr,_:=err.(*RowValueLengthInListError)",
+   "returnnil,NewRowValueLengthInComparisonError(rvlist.RowValues[rverr.Index],len(val))",
+   "}",
+   "returnvalue.NewTernary(t),nil"]
+
+/-- `evalArray` as a whole -/
+def evalArrayBody : List String :=
+  ["vararray[]value.RowValue",
+   "varerrerror",
+   "typeswitch(expr.(type)){",
+   "case(parser.Subquery):",
+   "array,err=evalSubqueryForArray(ctx,scope,expr.(parser.Subquery))",
+   "case(parser.JsonQuery):",
+   "array,err=evalJsonQueryForArray(ctx,scope,expr.(parser.JsonQuery))",
+   "case(parser.ValueList):",
+   "values,e:=evalValueList(ctx,scope,expr.(parser.ValueList))",
+   "if(e!=nil){",
+   "returnarray,e",
+   "}",
+   "array=make([]value.RowValue,len(values))",
+   "for(i,v:range:values){",
+   "array[i]=value.RowValue{v}",
+   "}",
+   "case(parser.RowValue):",
+   "array,err=evalArray(ctx,scope,expr.(parser.RowValue).Value)",
+   "}",
+   "returnarray,err"]
+
+/-- `evalIn`: [negated form, plain form] as quantifier and operator -/
+def inQuantifiers : List String :=
+  ["All <>",
+   "Any ="]
+
 end Csvq.Ref
